@@ -220,7 +220,7 @@ def findAxis (t : Tree) : Axis → Path → List Path × Bool
   | .namespaces, ctx =>
     -- `findNamespace`: (namespace-declaration) attributes of the ancestor-or-self elements; after the final
     -- `reverse()` they are in document order
-    (t.paths.filter fun q => lastIsAttr q && q.dropLast.isPrefixOf ctx && !lastIsAttr ctx, false)
+    (t.paths.filter fun q => lastIsAttr q && q.dropLast.isPrefixOf ctx && (q.dropLast != []) && !lastIsAttr ctx, false)
 
 /-- index comparison (`node1.getIndex() > node2.getIndex()`) through the document-order list -/
 def indexOf (t : Tree) (p : Path) : Nat := t.paths.idxOf p
